@@ -565,6 +565,82 @@ Section ArrivalTheorems.
   Qed.
 End ArrivalTheorems.
 
+(* ================================================================== 7. on the Pipeline model *)
+Require Import WD.Proofs.TieStrongProofs WD.Proofs.CutsProofs WD.Proofs.SoundPipeProofs WD.Proofs.SoundLooseProofs.
+
+Lemma justified_app_r rec root A B e : justified rec root B e = true -> justified rec root (A ++ B) e = true.
+Proof.
+  unfold justified. destruct (what_of (ev_cls e)) as [what isdir].
+  intros H. apply andb_true_iff in H as [H1 H2]. rewrite H1. cbn [andb].
+  destruct what, isdir; rewrite existsb_app; rewrite H2; apply orb_true_r.
+Qed.
+
+Lemma cmask_root_safe C rw : cmask rw -> root_safe C rw.
+Proof. intros [H|H]; unfold root_safe; rewrite H; intros X; vm_compute in X; discriminate. Qed.
+
+Lemma cmask_rcutok C R b : Forall cmask b -> rcutok C R b.
+Proof.
+  intros Hb b1 t b2 c -> Hk. exfalso. rewrite Forall_forall in Hb.
+  rewrite (nkind_cmask C t) in Hk by (apply Hb; apply in_app_iff; right; now left). discriminate.
+Qed.
+
+Section ArrivalPipe.
+  Variable P : pcfg.
+  Hypothesis HF : pc_filter P = None.
+  Let C := pc_reader P.
+  Hypothesis Hfaults : c_faults C = [].
+  Hypothesis Hsim : c_fix_simulate C = true.
+
+  (* AOp (mkdir p); AOp ... (below p); ARead 1; any ticks / queue_events; the delay; queue_events until the buffer is empty *)
+  Theorem arrival_pipeline s p rest L recs t0 :
+    RSync C (p_world s) (p_k s) (p_r s) -> buffer_idle (p_buf s) -> p_stopped s = false ->
+    (forall id, In id (map fst (p_tbl s)) -> (id < p_next s)%N) ->
+    npath p -> c_recursive C = true -> scope C p -> N.land IN_CREATE (c_mask C) <> 0%N -> Forall (below_op p) rest ->
+    forall w1, apply_op (p_world s) (Mkdir p) = Some w1 -> Forall tick_or_emit L ->
+    TInv (c_recursive C) (c_root C) (replay (c_recursive C) (c_root C) t0 (p_out s)) (p_world s) ->
+    exists nit s' obs, prun P s (burst_hist P (Mkdir p :: rest) [1%nat] L nit) [] = Done (s', obs) /\
+      sound_along P s recs (burst_hist P (Mkdir p :: rest) [1%nat] L nit) = true /\
+      p_world s' = snd (burst_end (p_k s) (p_world s) (Mkdir p :: rest)) /\
+      TInv (c_recursive C) (c_root C) (replay (c_recursive C) (c_root C) t0 (p_out s')) (p_world s') /\
+      RSync C (p_world s') (p_k s') (p_r s') /\ Cover C (w_fs (p_world s')) (p_k s') (p_r s') /\
+      buffer_idle (p_buf s') /\ p_stopped s' = false /\ (forall id, In id (map fst (p_tbl s')) -> (id < p_next s')%N).
+  Proof.
+    intros S Hidle Hal Htbl Np Hrec Sp Hm Hrest w1 Ha HL T.
+    set (ops := Mkdir p :: rest). set (KB := fst (burst_end (p_k s) (p_world s) ops)). set (wn := snd (burst_end (p_k s) (p_world s) ops)).
+    destruct (arrival_main C Hfaults Hsim _ _ _ p rest S Np Hrec Sp Hm Hrest w1 Ha) as (r0 & k0 & raws0 & Hrd0 & _ & Hlen & _).
+    destruct (arrival_raws C Hfaults Hsim _ _ _ p rest S Np Hrec Sp Hm Hrest w1 Ha)
+      as (r' & k' & raws & Hrd & S' & _ & _ & _ & Fc & _).
+    destruct (arrival_sound C (pc_full P) Hfaults Hsim _ _ _ p rest S Np Hrec Sp Hm Hrest w1 Ha) as (r1 & k1 & raws1 & Hrd1 & _ & J).
+    destruct (arrival_replay C (pc_full P) Hfaults Hsim _ _ _ p rest _ S Np Hrec Sp Hm Hrest w1 Ha T) as (r2 & k2 & raws2 & Hrd2 & _ & T').
+    fold ops KB wn in Hrd0, Hlen, Hrd, S', Hrd1, J, Hrd2, T'. cbv zeta in Hrd1, J, Hrd2, T'.
+    rewrite Hrd in Hrd1, Hrd2. inversion Hrd1; subst r1 k1 raws1. inversion Hrd2; subst r2 k2 raws2. clear Hrd0 Hrd1 Hrd2.
+    assert (Hrc : rcut C (w_fs wn) (p_r s) KB [1%nat] = Done (r', k', [raws])).
+    { cbn [rcut]. destruct (k_queue KB) as [|a [|b q]] eqn:Eq; try discriminate Hlen.
+      cbn [firstn]. assert (Ek : kcut KB 1 = drainq KB) by (unfold kcut, drainq, kset_queue; rewrite Eq; reflexivity).
+      rewrite Ek, Hrd. reflexivity. }
+    assert (Hsafe : Forall (root_safe C) (concat [raws])).
+    { cbn [concat]. rewrite app_nil_r. eapply Forall_impl; [|exact Fc]. intros rw. apply cmask_root_safe. }
+    assert (Hok : cuts_ok C [] [raws]) by (cbn [cuts_ok]; split; [now apply cmask_rcutok | exact I]).
+    destruct (aops_run P ops s [] (map ARead [1%nat] ++ L ++ ATick (pc_delay P) :: repeat AEmit 0) recs) as [[obs0 Hr0] _].
+    destruct (tie_reads P HF (after_burst s ops) [1%nat] L r' k' [raws] obs0 HL Hidle Hal Htbl Hrc Hsafe Hok)
+      as (nit & s' & obs & Hrun & Hout & E1 & E2 & E3 & Hidle' & Hal' & Htbl').
+    cbn [after_burst p_out p_world concat] in Hout, E1. rewrite app_nil_r in Hout. fold ops wn in Hout, E1.
+    fold C in Hout. change (emit_all (pc_full P) (c_recursive C) (c_root C) (content (w_fs wn)) (group_batch C raws))
+      with (ReplayProofs.delivered C (pc_full P) wn raws) in Hout.
+    exists nit, s', obs. split; [|split; [|split; [exact E1|split; [|split; [|split; [|split; [exact Hidle'|split; [exact Hal' | exact Htbl']]]]]]]].
+    - unfold burst_hist. fold ops. rewrite (ReplayPipeProofs.prun_app P (map AOp ops)), Hr0. exact Hrun.
+    - unfold burst_hist. fold ops. rewrite (proj2 (aops_run P ops s [] _ recs)).
+      assert (Hnoop : Forall noop (map ARead [1%nat] ++ L ++ ATick (pc_delay P) :: repeat AEmit nit)) by (now apply loose_rest_noop).
+      destruct (sa_noop P _ Hnoop (after_burst s ops) obs0 s' obs [] (recs ++ burst_recs (p_world s) ops) Hrun) as (new & Hn & Hsa).
+      rewrite app_nil_r in Hsa. rewrite Hsa. cbn [sound_along]. rewrite andb_true_r.
+      cbn [after_burst p_out] in Hn. rewrite Hout in Hn. apply app_inv_head in Hn. subst new.
+      apply forallb_forall. intros e He. apply justified_app_r. rewrite forallb_forall in J. exact (J e He).
+    - rewrite Hout, E1. unfold replay. rewrite fold_left_app. exact T'.
+    - rewrite E1, E2, E3. exact S'.
+    - rewrite E1, E2, E3. exact (rs_cover _ _ _ _ S').
+  Qed.
+End ArrivalPipe.
+
 (* the statement of Props/C02.v *)
 Theorem burst_arrival_cover C w k r p rest : c_faults C = [] -> c_fix_simulate C = true ->
   RSync C w k r -> npath p -> c_recursive C = true -> scope C p -> N.land IN_CREATE (c_mask C) <> 0%N ->
